@@ -21,7 +21,7 @@
 (*           failure the remaining rows are dropped from memory and        *)
 (*           hasFlushFailure is set                                        *)
 (*  FA*      FlushAll;  Ag*  flushAgedBuffers;  C*  Close (closing=true,   *)
-(*           cancel, wg.Wait, flush the shards -- the queue is not drained)*)
+(*           cancel, wg.Wait, flush what is still queued, flush the shards) *)
 (*  Tick*    maintenance: flag ? PurgeOlderThan(safeAge) ; replay every    *)
 (*           rotated file older than MinFileAge (file deleted after its    *)
 (*           entries were re-BUFFERED, without WAL) ; reset flag           *)
@@ -48,7 +48,8 @@ CONSTANTS NW,           \* number of writers ("w1".."w3")
           MaxTick, MaxAged,
           Ops,          \* subset of {"flushall","close","shutdown","restart"}
           CloseAfterWrites, \* Close/Shutdown only after every write returned (C03's quantifier)
-          CloseDrains,  \* hypothetical repair: Close flushes what is still queued
+          CloseDrains,  \* TRUE = the code since d59f85d: Close flushes what is still queued after wg.Wait();
+                        \* FALSE = the code before it (negative control NEG_c03_aswritten.cfg: TLC must reject NoLoss)
           Coarse,       \* generation mode: internal steps run to quiescence between commands
           Emit
 
